@@ -361,10 +361,16 @@ def h_every_difference(renderer):
                 continue
             for sur in ((0, 1, 5) if renderer == "pretty" else (0,)):
                 inputs.append(("diff items=%s surrounding=%d" % ("".join(kinds), sur), mk("".join(kinds), sur)))
+    if renderer == "pretty":
+        # differences separated by more matched lines than the context shows (the renderer elides the middle): nothing after the gap is lost
+        for head, tail in itertools.product("UX", repeat=2):
+            for gap, sur in ((3, 1), (4, 1), (5, 2)):
+                inputs.append(("diff items=%s surrounding=%d" % (head + "M" * gap + tail, sur), mk(head + "M" * gap + tail, sur)))
+            inputs.append(("diff items=%s surrounding=1" % ("M" * 4 + tail), mk("M" * 4 + tail, 1)))
     h = e2.Harness("%s_renderer_every_difference" % renderer, drive, inputs, post, native=None, judge=None,
                    describe="the %s rendering of a failed test case contains every unmatched expectation and every unexpected output line" % renderer,
                    bound="every sequence of 1..3 diff items (matched / unmatched expectation / run of two unexpected lines) with at least one difference%s"
-                         % ("; 0, 1 and 5 surrounding lines" if renderer == "pretty" else ""))
+                         % ("; 0, 1 and 5 surrounding lines; two differences separated by 3..5 matched lines with 1..2 surrounding lines (context elided)" if renderer == "pretty" else ""))
     h.models_cls = TextModels
     return h
 
